@@ -25,7 +25,8 @@ SHARDS = {"quick": 16, "thorough": 16}
 RULE = ("call alphabet (about 300 calls, built deterministically from the configuration and VERIF_SEED) covering every cached entry point and "
         "every flag / configuration value: Sid(str / sid= / fields= / query= / path= with each config, default and a bogus one), sid.path(config) "
         "positional / keyword / default, unfold_search with its four flag values positional / keyword / mixed / default / only-the-set-flag-by-keyword, match, find on a fixed "
-        "list, both trees and FindInAll (fully and partially consumed generators kept alive), exists, failing calls, entity creation. "
+        "(non-alphabetical) list, both trees and FindInAll (fully and partially consumed generators kept alive; fresh and long-lived Finder instances; "
+        "list results compared in order; find_one), paths of search Sids, exists, failing calls, entity creation. "
         "Each shard owns one PYTHONHASHSEED (8 seeds; shards 8-15 run with cache capacity 3) and checks: all ordered pairs inside a family of related calls (or-search / its alternatives / alias / members / '**' / explicit levels, through every entry point), all ordered pairs of a 22-call (quick) or 150+-call (thorough) "
         "sub-alphabet, Hypothesis-generated sequences of up to 50 calls (with creates), a flood of 5000 distinct Sids followed by probes, truth "
         "tables equal across hash seeds, call-style equivalence of truths. Oracle: every result equals the result of the same call in a freshly "
